@@ -68,13 +68,15 @@ inductive PErrKind where
   deriving DecidableEq, Repr, Inhabited
 
 /-- a diagnostic: the location `error()` prints, what it says, and (ghost) the token whose
-location was passed to `error()` — `none` for diagnostics of scan.c, which pass `&s->loc` -/
+location was passed to `error()` — `none` for diagnostics of scan.c, which pass `&s->loc` — and
+the line directives that had taken effect when it was raised -/
 structure PErr where
   file : List UInt8
   line : Nat
   col : Nat
   kind : PErrKind
   tok : Option PTok
+  dirs : List (Nat × Nat × Option (List UInt8))
   deriving DecidableEq, Repr, Inhabited
 
 /-- scanner + preprocessor state -/
@@ -92,12 +94,12 @@ structure PS where
 def PS.init (name : List UInt8) (text : List UInt8) : PS :=
   { s := S.init text, file := name, newline := true, dirs := [] }
 
-def errTok (t : PTok) (k : PErrKind) : PErr := ⟨t.file, t.line, t.col, k, some t⟩
+def errTok (p : PS) (t : PTok) (k : PErrKind) : PErr := ⟨t.file, t.line, t.col, k, some t, p.dirs⟩
 
 /-- `scan(&t)`: the token gets the scanner's current file name -/
 def scanP (p : PS) : Except PErr (PTok × PS) :=
   match scan p.s with
-  | .error e => .error ⟨p.file, e.loc.line, e.loc.col, .scan e.kind, none⟩
+  | .error e => .error ⟨p.file, e.loc.line, e.loc.col, .scan e.kind, none, p.dirs⟩
   | .ok (t, s') =>
     .ok (⟨t.kind, t.lit, p.file, t.loc.line, t.loc.col, t.space, t.start - 2 * p.s.skipped⟩,
          { p with s := s' })
@@ -122,7 +124,7 @@ def fileOf (lit : List UInt8) : List UInt8 :=
 
 /-- `while (tok.kind == TNUMBER) scan(&tok);` -/
 def skipNumbers : Nat → PTok → PS → Except PErr (PTok × PS)
-  | 0, t, _ => .error (errTok t .fuel)
+  | 0, t, p => .error (errTok p t .fuel)
   | n + 1, t, p =>
     if t.kind = .TNUMBER then
       match scanP p with
@@ -135,6 +137,20 @@ def skipNumbers : Nat → PTok → PS → Except PErr (PTok × PS)
 def setloc (p : PS) (n : Nat) (file : List UInt8) (line : Nat) : PS :=
   { p with s := { p.s with loc := ⟨n + (p.s.loc.line - line), p.s.loc.col⟩ }, file := file }
 
+/-- the end of `directive()` for a line directive, from `while (tok.kind == TNUMBER) scan(&tok);`
+on: `n` is the line number, `f` the file name if one was given, `file1` the current file name
+(`tok.loc.file`), `t2` the current token -/
+def lineDirEnd (n : Nat) (f : Option (List UInt8)) (file1 : List UInt8) (t2 : PTok) (p2 : PS) :
+    Except PErr PS :=
+  match skipNumbers (p2.s.inp.length + 2) t2 p2 with
+  | .error e => .error e
+  | .ok (t, p3) =>
+    -- `scansetloc(newloc, tok.loc.line)`
+    let p4 := setloc p3 n (f.getD file1) t.line
+    -- `tokencheck(&tok, TNEWLINE, "after preprocessing directive")`
+    if t.kind ≠ .TNEWLINE then .error (errTok p3 t (.expected .TNEWLINE .afterDirective))
+    else .ok { p4 with dirs := p4.dirs ++ [(t.off + 1, n, f)] }
+
 /-- the code from the label `line:` to the end of `directive()`; `num` is the `TNUMBER` token -/
 def lineDir (num : PTok) (p : PS) : Except PErr PS :=
   let n := lineValue (num.lit.getD [])
@@ -142,22 +158,11 @@ def lineDir (num : PTok) (p : PS) : Except PErr PS :=
   | .error e => .error e
   | .ok (t1, p1) =>
     -- `newloc.file = tok.loc.file; if (tok.kind == TSTRINGLIT) { …; scan(&tok); }`
-    let r : Except PErr (Option (List UInt8) × PTok × PS) :=
-      if t1.kind = .TSTRINGLIT then
-        match scanP p1 with
-        | .error e => .error e
-        | .ok (t2, p2) => .ok (some (fileOf (t1.lit.getD [])), t2, p2)
-      else .ok (none, t1, p1)
-    match r with
-    | .error e => .error e
-    | .ok (f, t2, p2) =>
-      match skipNumbers (p2.s.inp.length + 2) t2 p2 with
+    if t1.kind = .TSTRINGLIT then
+      match scanP p1 with
       | .error e => .error e
-      | .ok (t, p3) =>
-        let p4 := setloc p3 n (f.getD t1.file) t.line
-        -- `tokencheck(&tok, TNEWLINE, "after preprocessing directive")`
-        if t.kind ≠ .TNEWLINE then .error (errTok t (.expected .TNEWLINE .afterDirective))
-        else .ok { p4 with dirs := p4.dirs ++ [(t.off + 1, n, f)] }
+      | .ok (t2, p2) => lineDirEnd n (some (fileOf (t1.lit.getD []))) t1.file t2 p2
+    else lineDirEnd n none t1.file t1 p1
 
 /-- the directives that `directive()` answers with "#… directive is not implemented" -/
 def notImplemented : List (List UInt8) :=
@@ -168,14 +173,14 @@ def notImplemented : List (List UInt8) :=
 touch locations).  `nextinto` still looks for `#` while its `newline` flag is set, which it is
 for the first token after `pragma`: unmodelled. -/
 def pragmaLoop : Nat → PTok → PS → Except PErr (PTok × PS)
-  | 0, t, _ => .error (errTok t .fuel)
+  | 0, t, p => .error (errTok p t .fuel)
   | n + 1, t, p =>
     if t.kind = .TNEWLINE ∨ t.kind = .TEOF then .ok (t, p)
     else
       match scanP p with
       | .error e => .error e
       | .ok (t', p') =>
-        if p'.newline = true ∧ t'.kind = .THASH then .error (errTok t' .unmodelled)
+        if p'.newline = true ∧ t'.kind = .THASH then .error (errTok p' t' .unmodelled)
         else pragmaLoop n t' { p' with newline := decide (t'.kind = .TNEWLINE) }
 
 /-- `directive()`; the `#` has been scanned.  Returns the state after the directive's new-line. -/
@@ -185,31 +190,31 @@ def directive (p : PS) : Except PErr PS :=
   | .ok (t, p1) =>
     if t.kind = .TNEWLINE then .ok p1                        -- empty directive
     else if t.kind = .TNUMBER then lineDir t p1              -- gcc line marker
-    else if t.kind ≠ .TIDENT then .error (errTok t (.expected .TIDENT .afterHash))
+    else if t.kind ≠ .TIDENT then .error (errTok p1 t (.expected .TIDENT .afterHash))
     else
       let name := t.lit.getD []
-      if name ∈ notImplemented then .error (errTok t (.notImplemented name))
-      else if name = b!"define" ∨ name = b!"undef" then .error (errTok t .unmodelled)
+      if name ∈ notImplemented then .error (errTok p1 t (.notImplemented name))
+      else if name = b!"define" ∨ name = b!"undef" then .error (errTok p1 t .unmodelled)
       else if name = b!"line" then
         match scanP p1 with
         | .error e => .error e
         | .ok (t2, p2) =>
-          if t2.kind ≠ .TNUMBER then .error (errTok t2 (.expected .TNUMBER .afterLine))
+          if t2.kind ≠ .TNUMBER then .error (errTok p2 t2 (.expected .TNUMBER .afterLine))
           else lineDir t2 p2
       else if name = b!"pragma" then
         match pragmaLoop (p1.s.inp.length + 2) t p1 with
         | .error e => .error e
         | .ok (t2, p2) =>
-          if t2.kind ≠ .TNEWLINE then .error (errTok t2 (.expected .TNEWLINE .afterDirective))
+          if t2.kind ≠ .TNEWLINE then .error (errTok p2 t2 (.expected .TNEWLINE .afterDirective))
           else .ok p2
-      else .error (errTok t (.invalidDirective name))
+      else .error (errTok p1 t (.invalidDirective name))
 
 /-! ## `nextinto`, `next`, the delivered stream -/
 
 /-- `nextinto(t)`:
 `for (;;) { scan(t); if (newline && t->kind == THASH) directive(); else { newline = t->kind == TNEWLINE; break; } }` -/
 def nextinto : Nat → PS → Except PErr (PTok × PS)
-  | 0, p => .error ⟨p.file, 0, 0, .fuel, none⟩
+  | 0, p => .error ⟨p.file, 0, 0, .fuel, none, p.dirs⟩
   | n + 1, p =>
     match scanP p with
     | .error e => .error e
@@ -231,7 +236,7 @@ def PTok.toKeyword (t : PTok) : PTok :=
 /-- `next()` with an empty macro table; `nl` = `ppflags & PPNEWLINE`:
 `do rawnext(&t); while (expand(&t) || t.kind == TNEWLINE && !(ppflags & PPNEWLINE));` -/
 def next (nl : Bool) : Nat → PS → Except PErr (PTok × PS)
-  | 0, p => .error ⟨p.file, 0, 0, .fuel, none⟩
+  | 0, p => .error ⟨p.file, 0, 0, .fuel, none, p.dirs⟩
   | n + 1, p =>
     match nextinto (p.s.inp.length + 2) p with
     | .error e => .error e
@@ -240,8 +245,8 @@ def next (nl : Bool) : Nat → PS → Except PErr (PTok × PS)
       else .ok (t.toKeyword, p1)
 
 /-- result of a run: tokens delivered before the end (`TEOF` included) or the diagnostic, the
-diagnostic if any, and the line directives that had taken effect when the last token was
-delivered -/
+diagnostic if any, and the line directives that had taken effect at the end (when `TEOF` was
+delivered, or when the diagnostic was raised) -/
 structure Run where
   toks : List PTok
   err : Option PErr
@@ -249,10 +254,10 @@ structure Run where
   deriving Repr, Inhabited
 
 def runLoop (nl : Bool) : Nat → PS → Run
-  | 0, p => ⟨[], some ⟨p.file, 0, 0, .fuel, none⟩, p.dirs⟩
+  | 0, p => ⟨[], some ⟨p.file, 0, 0, .fuel, none, p.dirs⟩, p.dirs⟩
   | n + 1, p =>
     match next nl (p.s.inp.length + 2) p with
-    | .error e => ⟨[], some e, p.dirs⟩
+    | .error e => ⟨[], some e, e.dirs⟩
     | .ok (t, p1) =>
       if t.kind = .TEOF then ⟨[t], none, p1.dirs⟩
       else
